@@ -75,6 +75,11 @@ class Sequence:
         if not sequences_or_jobs:
             return
         new_jobs = self._flatten(sequences_or_jobs)
+        if not new_jobs:
+            return
+        # chain the new jobs together, and behind the current last job
+        for job1, job2 in zip(new_jobs, new_jobs[1:]):
+            job2.requires(job1)
         if self.jobs:
             new_jobs[0].requires(self.jobs[-1])
         self.jobs += new_jobs
